@@ -18,6 +18,7 @@ import (
 	"path/filepath"
 	"strings"
 	"syscall"
+	"time"
 
 	"verifharness/gen"
 	"verifharness/l1sync"
@@ -248,9 +249,12 @@ func main() {
 		}
 	}
 
+	tPhase := time.Now()
 	rounds := f.N(4, 5)
-	l1sync.Parallel(f.N(10, 160), f.N(4, 6), func(i int) []gen.Case { return runScenario(f.Seed, i, rounds) }, w)
+	l1sync.Parallel(f.N(20, 200), f.N(4, 6), func(i int) []gen.Case { return runScenario(f.Seed, i, rounds) }, w)
 
+	l1sync.Phase("scenarios", tPhase)
+	tPhase = time.Now()
 	cwd := filepath.Join(env.Work, "cwd")
 	os.MkdirAll(cwd, 0o755)
 	t, err := l1sync.StartTool(env.Bin, env.Mode, cwd)
@@ -262,10 +266,13 @@ func main() {
 	for i, n := 0, f.N(250, 6000); i < n; i++ {
 		w.Emit(discoverTreeCase(t, cwd, r, i))
 	}
+	l1sync.Phase("discover-trees", tPhase)
+	tPhase = time.Now()
 	for i, n := 0, f.N(800, 20000); i < n; i++ {
 		w.Emit(selectCase(t, cwd, r))
 	}
 	for i, n := 0, f.N(200, 2000); i < n; i++ {
 		w.Emit(normCase(t, cwd, r))
 	}
+	l1sync.Phase("select+norm", tPhase)
 }
